@@ -286,3 +286,6 @@ Proofs/ExtLeaves.vos Proofs/ExtLeaves.vok Proofs/ExtLeaves.required_vos: Proofs/
 Properties/C19.vo Properties/C19.glob Properties/C19.v.beautified Properties/C19.required_vo: Properties/C19.v Model.vo Spec/Stack.vo Spec/DenoteTests.vo Mon/C19.vo Proofs/ExtLeaves.vo
 Properties/C19.vio: Properties/C19.v Model.vio Spec/Stack.vio Spec/DenoteTests.vio Mon/C19.vio Proofs/ExtLeaves.vio
 Properties/C19.vos Properties/C19.vok Properties/C19.required_vos: Properties/C19.v Model.vos Spec/Stack.vos Spec/DenoteTests.vos Mon/C19.vos Proofs/ExtLeaves.vos
+Mon/Summary.vo Mon/Summary.glob Mon/Summary.v.beautified Mon/Summary.required_vo: Mon/Summary.v Model.vo Mon/C09.vo Mon/C12.vo
+Mon/Summary.vio: Mon/Summary.v Model.vio Mon/C09.vio Mon/C12.vio
+Mon/Summary.vos Mon/Summary.vok Mon/Summary.required_vos: Mon/Summary.v Model.vos Mon/C09.vos Mon/C12.vos
